@@ -119,8 +119,9 @@ Fixpoint chunks_all (fuel : nat) (c : cst) (body : bytes) (b : bytes) : res (byt
            end
   end.
 
-(* Requestant.parse() on a complete message *)
-Definition parse_request (o : url_oracle) (b : bytes) : res parsed :=
+(* Requestant.parse() on a buffer that starts with a complete message: the parsed request and
+   the bytes left in the buffer (the next request on the connection) *)
+Definition parse_request_rest (o : url_oracle) (b : bytes) : res (parsed * bytes) :=
   match line_lf b with
   | Need => Exc StopIter
   | Fail k _ => Exc k
@@ -132,16 +133,31 @@ Definition parse_request (o : url_oracle) (b : bytes) : res parsed :=
     let '(h, rest') := hr in
     if is_chunked h then
       bind (chunks_all (S (List.length rest')) CSize [] rest') (fun br =>
-      Ok {| p_method := fst (fst mv); p_v10 := snd (fst mv); p_path := unquote (u_path (fst sp));
-            p_query := u_query (fst sp); p_headers := h;
-            p_length := Some (blen (fst br)); p_body := fst br |})
+      Ok ({| p_method := fst (fst mv); p_v10 := snd (fst mv); p_path := unquote (u_path (fst sp));
+             p_query := u_query (fst sp); p_headers := h;
+             p_length := Some (blen (fst br)); p_body := fst br |}, snd br))
     else match req_length h with
          | None => Exc HTTPExc
          | Some n => if blen rest' <? n then Exc StopIter else
-                     Ok {| p_method := fst (fst mv); p_v10 := snd (fst mv); p_path := unquote (u_path (fst sp));
-                           p_query := u_query (fst sp); p_headers := h;
-                           p_length := Some n; p_body := firstn (N.to_nat n) rest' |}
+                     Ok ({| p_method := fst (fst mv); p_v10 := snd (fst mv); p_path := unquote (u_path (fst sp));
+                            p_query := u_query (fst sp); p_headers := h;
+                            p_length := Some n; p_body := firstn (N.to_nat n) rest' |},
+                         skipn (N.to_nat n) rest')
          end)))
+  end.
+
+Definition parse_request (o : url_oracle) (b : bytes) : res parsed :=
+  bind (parse_request_rest o b) (fun pr => Ok (fst pr)).
+
+(* one Requestant serving a connection: parse, makeParser(), parse the next from what is left.
+   Every request starts from a fresh header dict. *)
+Fixpoint parse_many (o : url_oracle) (n : nat) (b : bytes) : list (res parsed) :=
+  match n with
+  | O => []
+  | S n' => match parse_request_rest o b with
+            | Ok (p, rest) => Ok p :: parse_many o n' rest
+            | Exc k => [Exc k]
+            end
   end.
 
 (* urllib.parse.parse_qsl(qs, keep_blank_values=True): what a WSGI application does with QUERY_STRING *)
@@ -328,7 +344,10 @@ Record stepobs := { y_built : option bytes;                  (* Requester.build(
 
 Record case := { y_req : request; y_ops : list rargs; y_host : ustr; y_port : N;
                  y_ip6 : tbl; y_nfkc : tbl;
-                 y_steps : list stepobs }.                   (* one per build, in order *)
+                 y_steps : list stepobs;                     (* one per build, in order *)
+                 (* all built requests (after an optional foreign first request) through ONE Requestant *)
+                 y_stream_in : bytes; y_stream_n : nat;
+                 y_stream : list (option (ustr * ustr * ustr * list (ustr * ustr) * bytes)) }.
 
 Definition check_step (o : url_oracle) (rw : request * bytes) (c : stepobs) : bool :=
   let '(req, mwire) := rw in
@@ -365,7 +384,16 @@ Fixpoint check_steps (o : url_oracle) (h : list (request * bytes)) (obs : list s
 Definition check_case (c : case) : bool :=
   let o := mk_oracle (y_ip6 c) (y_nfkc c) in
   let h := history (y_host c) (y_port c) (state_of (y_req c)) (y_ops c) in
-  Nat.eqb (List.length h) (List.length (y_steps c)) && check_steps o h (y_steps c).
+  Nat.eqb (List.length h) (List.length (y_steps c)) && check_steps o h (y_steps c)
+  && list_eqb2 (fun (m : res parsed) (ob : option (ustr * ustr * ustr * list (ustr * ustr) * bytes)) =>
+                  match m, ob with
+                  | Ok p, Some (me, pa, q, hs, body) =>
+                    ustr_eqb (p_method p) me && ustr_eqb (p_path p) pa && ustr_eqb (p_query p) q
+                    && pairs_eqb (p_headers p) hs && bytes_eqb (p_body p) body
+                  | Exc _, None => true
+                  | _, _ => false
+                  end)
+               (parse_many o (y_stream_n c) (y_stream_in c)) (y_stream c).
 
 Definition case_branches (c : case) : list nat :=
   let r := y_req c in
